@@ -25,9 +25,9 @@ CHECKS = {
         "design_ref": "DESIGN.md §7 C02",
     },
     "C03": {
-        "scenarios": [{"name": "admission"}, {"name": "general", "tier": "thorough"}],
-        "accept": ["batch:", "nonneg:"],
-        "technique": "Lean: balance-table invariant (one row per address, no negative cell) proved for every primitive and lifted through the whole block transaction and every chain; rejected batch = no state change; accepted batch passed the funds check. Tie: applyTransactionBatch (hook) on random 1-4 transaction batches vs the model; lock-step chains",
+        "scenarios": [{"name": "admission"}, {"name": "bank"}, {"name": "general", "tier": "thorough"}],
+        "accept": ["batch:", "nonneg:", "history-replay:balances-differ"],
+        "technique": "Lean: balance-table invariant (one row per address, no negative cell) proved for every primitive and lifted through the whole block transaction and every chain; rejected batch = no state change; accepted batch passed the funds check. Tie: bank-era chains with requests that are rejected when they execute (history replay = balances: a rejected batch contributes nothing); applyTransactionBatch (hook) on random 1-4 transaction batches vs the model; lock-step chains",
         "assumptions": ["per-asset column sums stay below 2^63 (no check in the code; SQLite would switch to REAL)"],
         "design_ref": "DESIGN.md §7 C03",
     },
@@ -46,8 +46,8 @@ CHECKS = {
         "design_ref": "DESIGN.md §7 C05",
     },
     "C06": {
-        "scenarios": [{"name": "dups"}],
-        "accept": ["dups:", "holding:passed-over"],
+        "scenarios": [{"name": "dups"}, {"name": "bank"}],
+        "accept": ["dups:", "holding:passed-over", "history-replay:balances-differ:bank-"],
         "technique": "Lean: execution marks the entry hash, the mark is permanent over every chain (relation rows only grow: invariant lifted through the whole block), marked or already-recorded entries are skipped, holding window visits strictly earlier heights; block-level 'at least once': every batch held in the window of a rated block gets a status / replay mark / dropped in that block (history variable statusLog, lifted through the whole block transaction). Tie: repetition patterns synced with and without the duplicates, lock-step with the model",
         "assumptions": [ORACLES],
         "design_ref": "DESIGN.md §7 C06",
@@ -95,7 +95,7 @@ CHECKS = {
         "design_ref": "DESIGN.md §7 C12",
     },
     "C13": {
-        "scenarios": [{"name": "admission"}],
+        "scenarios": [{"name": "admission"}, {"name": "ledger"}],
         "accept": ["admission:"],
         "technique": "Lean: outcome of a single-conversion batch equals the rule table for all pairs, heights, rates, averages and balances; corollaries per rule and the converse (admissible and funded = executed); regenerated one-way set, guard and reject codes. Tie: applyTransactionBatch (hook) over pairs x heights around every activation x rate/average patterns vs the model and the table",
         "assumptions": ["PEG-destination rule from 2.0 lives in the holding path (ValidatePegTx) and is exercised by the lock-step chains"],
